@@ -14,14 +14,22 @@ def determinise(ck):
 
 
 def gen_texts(ck, maxcore, nsim, keep):
-    r = ck.tlc("LexTextGen", constants={"MaxCore": maxcore, "PairSeps": 3 if maxcore <= 2 else 5}, workers=4, count=False, timeout=1200)
-    if "GENERATED" not in r.out:
+    r = ck.tlc("LexTextGen", constants={"MaxCore": maxcore, "PairSeps": 3 if maxcore <= 2 else 6}, count=False, timeout=1800)
+    if not r.ok:
         raise vp.Infra("LexTextGen failed:\n" + r.out[-2000:])
     gen = os.path.join(ck.work, "tla", "gen_texts.ndjson")
+    seen = set()
+    with open(gen, "w") as f:
+        for t in r.printed("TEXT"):
+            k = "".join(t["text"])
+            if k not in seen:
+                seen.add(k)
+                f.write(json.dumps({"text": t["text"]}) + "\n")
+    if not seen:
+        raise vp.Infra("LexTextGen produced no text")
     s = ck.tlc("LexTextSim", workers=1, simulate="num=%d" % nsim, extra=["-depth", "10"], count=False, timeout=600,
                must_finish=False)
     rows = s.printed("TEXT")
-    seen = set()
     out = []
     for t in rows:
         k = "".join(t["text"])
